@@ -54,6 +54,8 @@ PROPERTY_RULES: Dict[str, List[Scoped]] = {
         _r("COST-GUARD", S_THL), _r("CANDIDATE-GUARDS", S_THL), _r("ENUM-NO-TRUNCATION", ("compute.exhaustive:", "compute.reconciliation:")), _r("HASH-IDENTITY", S_COMPUTE + S_MODEL),
         _r("MODEL-TABLE"), _r("LABEL-SIBLINGS"), _r("CONSERVED-SIDE"),
         _r("COMBINATOR-TOTAL", S_THL),
+        _r("NAME-AS-KEY", ("utils.trees:LowestCommonAncestor",)),
+        _r("UPDATE-PAIRING"), _r("RETENTION-GUARDS"), _r("POLARITY"),
     ],
     "C02": [
         _r("SENTINEL", S_SPFS, S_SUBSEQ), _r("COSTKEYS", S_SPFS), _r("PRUNE", S_SPFS), _r("EVENT-SIG", S_SPFS),
@@ -68,6 +70,9 @@ PROPERTY_RULES: Dict[str, List[Scoped]] = {
         _r("STALE-INPUT", S_SPFS), _r("MASK-RANGE"), _r("SEGMENT-MACHINE"), _r("BIT-ORDER"),
         _r("ENUM-NO-TRUNCATION", S_SPFS),
         _r("MODEL-TABLE"), _r("LABEL-SIBLINGS"), _r("CONSERVED-SIDE"),
+        _r("NAME-AS-KEY", ("utils.trees:LowestCommonAncestor",)),
+        _r("UPDATE-PAIRING"), _r("RETENTION-GUARDS"), _r("POLARITY"),
+        _r("ROOT-CONTENT", ("compute.super_reconciliation:",)),
     ],
     "C03": [
         _r("READONLY-DECODE", S_USPFS), _r("COSTKEYS", S_USPFS), _r("PRUNE", S_USPFS), _r("EVENT-SIG", S_USPFS),
@@ -82,6 +87,9 @@ PROPERTY_RULES: Dict[str, List[Scoped]] = {
         _r("STALE-INPUT", S_USPFS), _r("GAIN-AT-LCA"), _r("TREE-ITER-EXPLICIT", S_USPFS + S_MODEL),
         _r("ENUM-NO-TRUNCATION", S_USPFS),
         _r("MODEL-TABLE"), _r("LABEL-SIBLINGS"), _r("CONSERVED-SIDE"),
+        _r("NAME-AS-KEY", ("utils.trees:LowestCommonAncestor",)),
+        _r("UPDATE-PAIRING"), _r("RETENTION-GUARDS"), _r("POLARITY"),
+        _r("ROOT-CONTENT", ("compute.unordered_super_reconciliation:",)),
     ],
     "C04": [
         _r("DECODE-GUARD"), _r("DECODE-COMPLETE"), _r("LEAF-ANCHOR"), _r("SENTINEL"), _r("READONLY-DECODE"),
@@ -92,6 +100,7 @@ PROPERTY_RULES: Dict[str, List[Scoped]] = {
         _r("COST-PASSTHROUGH", S_MODEL), _r("GRAPH-KEYS"), _r("SET-ALGEBRA-ARGS"), _r("OUTPUT-FLAG"), _r("KEY-GUARD", S_MODEL + S_COMPUTE),
         _r("TREE-ITER-EXPLICIT"), _r("GAIN-AT-LCA"),
         _r("LCA-PROPAGATE"), _r("SORT-KEY-ALIGNED"),
+        _r("ROOT-CONTENT"),
     ],
     "C05": [
         _r("POLICY-FLOW"), _r("DECODE-PRODUCT"), _r("RESULT-SCOPE"), _r("PRUNE"), _r("UPDATE-PAIRING"),
@@ -107,6 +116,8 @@ PROPERTY_RULES: Dict[str, List[Scoped]] = {
         _r("TREE-ITER-EXPLICIT", S_COMPUTE + S_MODEL), _r("HASH-CANONICAL"), _r("UPDATE-ALL-CANDIDATES"),
         _r("MODEL-TABLE"), _r("LABEL-SIBLINGS"), _r("CONSERVED-SIDE"),
         _r("COMBINATOR-TOTAL"),
+        _r("READONLY-INPUT"),
+        _r("ROOT-CONTENT"),
     ],
     "C06": [
         _r("MODEL-TABLE"), _r("LABEL-SIBLINGS"), _r("EVENT-EXHAUSTIVE"), _r("EVENT-TABLE"), _r("CONSERVED-SIDE"),
@@ -115,6 +126,8 @@ PROPERTY_RULES: Dict[str, List[Scoped]] = {
         _r("COST-TRUTH", S_MODEL + S_CLI), _r("FIELD-COPY-COMPLETE", S_CLI),
         _r("DERIVED-QUERIES"),
         _r("SEGMENT-MACHINE"), _r("BIT-ORDER"), _r("COST-NO-ROUNDING"),
+        _r("EVAL-NO-SHORTCUT"),
+        _r("NAME-AS-KEY", ("utils.trees:LowestCommonAncestor",)),
     ],
     "C07": [
         _r("LCA-PROPAGATE"), _r("TRAVERSAL", ("compute.reconciliation:reconcile_lca",)),
@@ -124,6 +137,8 @@ PROPERTY_RULES: Dict[str, List[Scoped]] = {
         _r("RMQ-WINDOWS"), _r("EULER-INDEX"),
         _r("HASH-CANONICAL"),
         _r("PRIVATE-INDEX"),
+        _r("NAME-AS-KEY", ("utils.trees:LowestCommonAncestor",)),
+        _r("TREE-ITER-EXPLICIT", ("compute.reconciliation:",)),
     ],
     "C08": [
         _r("TREE-WRITE-ARGS"), _r("FIELDS-SERIALISED"), _r("DICT-KEYS"), _r("FEATURE-COPY"),
@@ -136,6 +151,7 @@ PROPERTY_RULES: Dict[str, List[Scoped]] = {
         _r("COST-PASSTHROUGH", S_MODEL), _r("COPY-FAITHFUL", S_TREES + S_MODEL),
         _r("STALE-INPUT"), _r("TREE-ITER-EXPLICIT", S_COMPUTE + S_MODEL + S_TREES),
         _r("MAPPING-KEYING"),
+        _r("ROOT-CONTENT"),
     ],
     "C09": [
         _r("MIRROR"), _r("CLASS-DOMAIN"), _r("COST-HOMOGENEOUS"), _r("READONLY-DECODE"),
@@ -146,6 +162,7 @@ PROPERTY_RULES: Dict[str, List[Scoped]] = {
         _r("EVENT-SIG"), _r("MODEL-TABLE"), _r("CONSERVED-SIDE"), _r("ITERATOR-REUSE", S_COMPUTE), _r("COST-GUARD"), _r("CANDIDATE-GUARDS"),
         _r("INFO-KEY"), _r("COMBINE-ORIENT"), _r("GRAPH-KEYS"),
         _r("COMBINATOR-TOTAL"),
+        _r("POLICY-FLOW"),
     ],
     "C10": [
         _r("BASE-EXT-SHARE"), _r("EVENT-SIG"), _r("COSTKEYS"), _r("SIBLING-PAIRING"), _r("READONLY-DECODE"),
@@ -157,6 +174,7 @@ PROPERTY_RULES: Dict[str, List[Scoped]] = {
         _r("MODEL-TABLE"), _r("LABEL-SIBLINGS"), _r("CONSERVED-SIDE"),
         _r("GRAPH-KEYS"),
         _r("COMBINATOR-TOTAL"),
+        _r("ROOT-CONTENT"),
     ],
     "C11": [
         _r("DICT-KEYS"), _r("FIELDS-SERIALISED"), _r("TREE-WRITE-ARGS"), _r("ENUM-DISJOINT"), _r("MAPPING-KEYING"),
@@ -184,6 +202,7 @@ PROPERTY_RULES: Dict[str, List[Scoped]] = {
         _r("PLACED-IN-SPECIES"),
         _r("LEAF-MAP-DOMAIN"), _r("ANCHOR-SET"), _r("DRAW-ANCHOR-SIDES"),
         _r("FINITE-ARITH"),
+        _r("KIND-ENUM-BASE"),
     ],
     "C14": [
         _r("SIGMA-INVARIANCE"), _r("SIGMA-CLOSURE"), _r("SOLVER-STATELESS", ("render.layout:", "utils.geometry:")),
@@ -191,6 +210,7 @@ PROPERTY_RULES: Dict[str, List[Scoped]] = {
         _r("NO-TOPOLOGY-WRITE"),
         _r("FINITE-ARITH"), _r("ANCHOR-SET"), _r("SUBTREE-BOX"), _r("DRAW-ANCHOR-SIDES"),
         _r("READONLY-INPUT", S_RENDER), _r("IDENTITY-KEYS"),
+        _r("GEOM-NO-ORDER"),
     ],
     "C15": [
         _r("TEMPLATE-BRACES"), _r("TEMPLATE-TERMINATED"), _r("PICTURE-ENV"), _r("COLOR-INTERN"),
@@ -211,12 +231,14 @@ PROPERTY_RULES: Dict[str, List[Scoped]] = {
         _r("UPDATE-ALL-CANDIDATES"),
         _r("ITERABLE-ONCE", S_DP),
         _r("PROXY-UPDATE-GATE"),
+        _r("TAG-TEST-CONSISTENT"),
     ],
     "C17": [
         _r("DERIVED-QUERIES"), _r("EULER-INDEX"), _r("RMQ-WINDOWS"),
         _r("SOLVER-STATELESS", ("utils.trees:LowestCommonAncestor", "utils.trees:_euler", "utils.range_min_query:")),
         _r("TREE-ITER-EXPLICIT", S_TREES),
         _r("PRIVATE-INDEX"),
+        _r("NAME-AS-KEY", ("utils.trees:LowestCommonAncestor",)),
     ],
     "C18": [
         _r("BIT-ORDER"), _r("SEGMENT-MACHINE"), _r("SENTINEL", S_SUBSEQ),
@@ -229,6 +251,7 @@ PROPERTY_RULES: Dict[str, List[Scoped]] = {
         _r("KAHN-LOOP"),
         _r("TOPO-VERDICT"), _r("ENUM-NO-TRUNCATION", ("utils.toposort:",)),
         _r("NODE-OPAQUE"),
+        _r("GRAPH-AS-GIVEN"),
     ],
     "C20": [
         _r("COPY-BEFORE-MUTATE"),
@@ -691,6 +714,29 @@ _DECIDED_ROUND5 = {
     'C19': ['vertices are treated as opaque hashable values: never sorted or compared with < (NODE-OPAQUE)'],
     'C20': ['no direct iteration of a tree (TREE-ITER-EXPLICIT); deep copies of tree nodes use the detaching `.copy()` (COPY-FAITHFUL); a parameter annotated Iterable is walked once or materialised first (ITERABLE-ONCE)', 'abstract execution of DisjointSet.binary on every partition of 1..5 blocks in every listing order of the blocks: exactly the 2**(k-1) - 1 two-block coarsenings, each once (BINARY-COARSENINGS)', 'trees_to_triples returns every triple of every tree, not one per cherry (TRIPLES-SOURCE); no chained assignment reads a name it has just rebound (CHAINED-ASSIGN-ORDER)'],
 }
+_DECIDED_ROUND7 = {
+    'C04': ['the drivers decode from the complete root synteny only (ROOT-CONTENT)'],
+    'C08': ['the drivers decode from the complete root synteny only, whichever refinement is being solved (ROOT-CONTENT)'],
+    'C10': ['both super-reconciliation drivers decode from the complete root synteny (ROOT-CONTENT)'],
+    'C01': ['the ancestry oracle never identifies a species by its name (NAME-AS-KEY on LowestCommonAncestor); the table entries it fills keep the optimum with exact comparisons (UPDATE-PAIRING, RETENTION-GUARDS, POLARITY)'],
+    'C03': ['the ancestry oracle never identifies a species by its name (NAME-AS-KEY on LowestCommonAncestor); exact comparisons in Entry.update (UPDATE-PAIRING, RETENTION-GUARDS, POLARITY)'],
+    'C05': ['the drivers decode from the complete root synteny only (ROOT-CONTENT)', 'no solver writes into the input (a cost written by one algorithm would change what the next one retains) (READONLY-INPUT)'],
+    'C07': ['species are never looked up by name in the ancestry oracle (NAME-AS-KEY); no `node in tree` test - ete3 answers it for strict descendants only (TREE-ITER-EXPLICIT)'],
+    'C09': ['aggregates inherit the retention policy of the table: none is created with a literal policy (POLICY-FLOW)'],
+    'C17': ['queries resolve nodes by identity, never by name (NAME-AS-KEY on LowestCommonAncestor)'],
+    'C02': ['species are never looked up by name in the ancestry oracle (NAME-AS-KEY); exact comparisons in Entry.update (UPDATE-PAIRING, RETENTION-GUARDS, POLARITY)', 'without a prescribed root, the root orders are toposort_all of the precedence graph of all families, not of a filtered graph completed by hand (ROOT-ORDER-SOURCE derived-root-orders)'],
+    'C06': ['species are never looked up by name in the ancestry oracle (NAME-AS-KEY on LowestCommonAncestor)', 'every conditional return of the evaluator is selected by the event of the node - no closed-form shortcut for a subtree (EVAL-NO-SHORTCUT)'],
+    'C11': ['neither _from_dict nor from_dict edits a parsed tree (no relabelling of nodes that look unnamed) (FIELD-SOURCE tree-as-written)'],
+    'C13': ['NodeEvent and EdgeEvent are plain Enum classes, so kinds of the two enumerations never compare equal (KIND-ENUM-BASE); every species looks at its genes - no species is skipped before the gene loop (PLACED-IN-SPECIES every-species)'],
+    'C14': ['points, sizes and rectangles are never ordered as whole named tuples (GEOM-NO-ORDER)'],
+    'C16': ['the tie branch and the improvement branch of update agree on what a tagged candidate is (TAG-TEST-CONSISTENT)'],
+    'C18': ['the masks reach the scanning loop as given (SEGMENT-MACHINE masks-as-given)'],
+    'C19': ['the ordering routines work on the graph they are given, not on a reduced or rebuilt one (GRAPH-AS-GIVEN)'],
+    'C20': ['unite links only roots: both sides of every store into the parent table are find() results (GROUPS-PAIRING link-roots)'],
+}
+for _k7, _v7 in _DECIDED_ROUND7.items():
+    _DECIDED_ROUND5.setdefault(_k7, [])
+    _DECIDED_ROUND5[_k7] = _DECIDED_ROUND5[_k7] + _v7
 for _k5, _v5 in _DECIDED_ROUND5.items():
     _DECIDED_ROUND4.setdefault(_k5, [])
     _DECIDED_ROUND4[_k5] = _DECIDED_ROUND4[_k5] + _v5
